@@ -62,7 +62,7 @@ VERBS_WITH_SEQ = (b"AVERS", b"CURCH", b"SFILE", b"STATU", b"GETWC", b"SETWC", b"
 
 def session_wire(seed):
     """A full session of the REAL async client (handshake, refresh, facade queries, commands, acknowledgements of the spa's partial
-    updates) against the in-process simulator under virtual time: the sequence byte of every datagram the client put on the wire."""
+    updates, socket error notifications in between) against the in-process simulator under virtual time: the sequence byte of every datagram the client put on the wire."""
     import asyncio
     import random
     from harness import vloop, session
@@ -73,6 +73,7 @@ def session_wire(seed):
         cl = session.Client(peer)
         await cl.connect(with_facade=True)
         spa = cl.spa
+        nerr = [0]
         for k in range(230):
             r = rng.random()
             try:
@@ -95,6 +96,11 @@ def session_wire(seed):
             except AssertionError:
                 break
             await asyncio.sleep(rng.choice([0.0, 0.3, 1.1]))
+            if rng.random() < 0.06 and spa._protocol is not None:
+                # a socket error notification (ICMP port unreachable for an earlier datagram): the endpoint and the session stay
+                with vloop.quiet():
+                    spa._protocol.error_received(ConnectionRefusedError(111, "Connection refused"))
+                nerr[0] += 1
         await cl.close()
         return [d for (t, d) in peer.raw]
     out = []
